@@ -565,6 +565,9 @@ func (c *Ctx) Rapid(leg string, checks int, prop func(t *rapid.T)) {
 // not called within limit, the case is written to VERIF_HANGFILE and the
 // process exits with status 3 (the driver then re-runs that case alone).
 func (c *Ctx) Guard(cs *Case, limit time.Duration) func() {
+	if os.Getenv("VERIF_WATCHDOG") == "off" {
+		return func() {} // isolated confirmation run: the driver's own 120 s limit decides
+	}
 	c.watchOnce.Do(func() {
 		go func() {
 			for {
